@@ -252,6 +252,58 @@ pub fn par_sweep<F: Fn(u64) -> bool + Sync>(limit: u64, stride: u64, off: u64, c
     (total, sel)
 }
 
+/// Like `par_sweep`, but keeps the `k` inputs with the highest score (None = not comparable / outside the domain).
+pub fn par_top<F: Fn(u64) -> Option<i64> + Sync>(limit: u64, stride: u64, off: u64, k: usize, score: F) -> (u64, Vec<(i64, u64)>) {
+    let nthreads = std::thread::available_parallelism().map(|n| n.get()).unwrap_or(4).min(16) as u64;
+    let total = if off < limit { (limit - off + stride - 1) / stride } else { 0 };
+    let mut all: Vec<(i64, u64)> = Vec::new();
+    let mut counted = 0u64;
+    crate::guard::IN_CALL.store(true, std::sync::atomic::Ordering::Relaxed);
+    std::thread::scope(|sc| {
+        let mut hs = Vec::new();
+        for t in 0..nthreads {
+            let score = &score;
+            hs.push(sc.spawn(move || {
+                let mut out: Vec<(i64, u64)> = Vec::new();
+                let mut cnt = 0u64;
+                let mut floor = 1i64; // scores below this cannot enter the top k any more
+                let mut j = t;
+                while j < total {
+                    let i = off + j * stride;
+                    // a panic inside the library is the most interesting outcome of all
+                    let d = std::panic::catch_unwind(std::panic::AssertUnwindSafe(|| score(i))).unwrap_or(Some(i64::MAX));
+                    if let Some(d) = d {
+                        cnt += 1;
+                        if d >= floor {
+                            out.push((d, i));
+                            if out.len() > 4 * k.max(8) {
+                                out.sort_by(|x, y| y.0.cmp(&x.0));
+                                out.truncate(k);
+                                floor = out.last().map(|e| e.0).unwrap_or(1);
+                            }
+                        }
+                    }
+                    if j % 4096 == 0 {
+                        crate::guard::PROGRESS.fetch_add(1, std::sync::atomic::Ordering::Relaxed);
+                    }
+                    j += nthreads;
+                }
+                (cnt, out)
+            }));
+        }
+        for h in hs {
+            if let Ok((c, o)) = h.join() {
+                counted += c;
+                all.extend(o);
+            }
+        }
+    });
+    crate::guard::IN_CALL.store(false, std::sync::atomic::Ordering::Relaxed);
+    all.sort_by(|x, y| y.0.cmp(&x.0).then(x.1.cmp(&y.1)));
+    all.truncate(k);
+    (counted, all)
+}
+
 /// every `2^(32-log2n)`-th P32E2 pattern (offset by the seed; log2n = 32: all of them) through the listed unary operations
 pub fn screen_unary32(ctx: &mut Ctx, ty: &Ty, ops: &[&'static str], log2n: u32) {
     let stride = 1u64 << (32 - log2n);
